@@ -148,6 +148,10 @@ func UnpackLayer(dest string, layer io.Reader, options *TarOptions) (size int64,
 				if !isWithin(dest, originalPath) {
 					return 0, breakoutError(fmt.Errorf("%q is outside of %q", hdr.Name, dest))
 				}
+				if originalPath == filepath.Clean(dest) {
+					// ".wh." and ".wh.." at the top level name the layer root itself
+					return 0, fmt.Errorf("whiteout %q names the destination %q itself", hdr.Name, dest)
+				}
 				// os.RemoveAll opens the parent of a path it cannot unlink
 				// directly; never let that parent be a fifo or a device.
 				if fi, err := os.Stat(filepath.Dir(originalPath)); err == nil && !fi.IsDir() {
